@@ -137,4 +137,18 @@ CLAIMED['C13'] = dict(category='proof',
    note=_ASSUME + 'log/sqrt handled by monotonicity certificates; the exit-state argument (iterates within atol) is the '
         'stated loop contract. Ring counts 2,3 (4 thorough) for the coolant weights.',
    technique='contract-based deductive verification (proxy execution, loops cut from the real source, exact normaliser, monotone-function certificates)')
+CLAIMED['C12'] = dict(category='proof',
+   text='For the real Cheng-Todreas (CTD/UCTD) constant flow splits built by the real calc_constants / '
+        '_calc_regime_ratio_constants / _calc_constant_flowsplits and the real friction_ctd._calc_cfb, with geometry through '
+        'its contract and fitted constants as positive atoms: mass conservation, positivity, equal subchannel pressure '
+        'gradients Cf x^(2-m) De^-(1+m) in laminar (m=1) and turbulent (m=0.18) flow, and equality with the bundle gradient '
+        'Cf_b De_b^-(1+m) - proved with exact power-law algebra over rational exponents. NOV and MIT splits: mass '
+        'conservation and positivity. The transition / spacer-grid iteration (_iterate, loop cut from the source): every '
+        'returned triple conserves mass, is positive and equalises friction+grid gradients; _calc_ffb_tr is positive with '
+        'the right limits; subchannel mass flows are area share x split. Bounded: all 120 accepted correlation triples x 7 '
+        'Reynolds numbers incl. regime boundaries x spacer grid on/off evaluate without exception, conserve mass, give '
+        'positive finite friction and non-negative finite mixing parameters.',
+   note=_ASSUME + 'Float exponents are read as exact ratios (59/91 etc.). The total.evaluates[*] obligations are BOUNDED '
+        'run-time contracts; SE2 symbolically and convergence of the iteration are not decided.',
+   technique='contract-based deductive verification (proxy execution, generalised-monomial normaliser with rational exponents, loop cut from source) + bounded run-time contracts')
 NOT_APPLICABLE = {f'C{i:02d}': 'check not built yet in this round (see DESIGN.md section 12 build order)' for i in range(1, 21)}
